@@ -195,7 +195,7 @@ def cases(tier):
     if tier == "thorough": cs += [Case("SPIMaster(16,raw)", c_spi, 16, "raw"), Case("SPIMaster(32,aligned)", c_spi, 32, "aligned")]
     return cs
 
-ASSUMPTIONS = ["WaitTimer: done exactly after t consecutive wait cycles and held (saturating) while wait stays high (same contract as in C11); PWM, timeline not covered",
+ASSUMPTIONS = ["WaitTimer: done exactly after t consecutive wait cycles and held (saturating) while wait stays high (same contract as in C11); timeline is in C19_serial_ext.py, PWM in C19_pwm.py",
                "UART: transmitter framing and bit period (accumulator carry) proved for every 32-bit tuning word; the receiver (RS232PHYRX: frame recovery, phase offsets, +-2% rate mismatch) is NOT covered",
-               "SPI master: divider and length are configuration constants during a transfer; MISO capture and SPISlave not covered; I2C master not covered",
+               "SPI master: divider and length are configuration constants during a transfer; SPISlave and the I2C master are in C19_serial_ext.py",
                "'always finishes' is proved for the SPI master by a ranking function that strictly decreases in every busy cycle, for the UART TX by the tick-counting invariant (10 ticks per frame; tick liveness needs tuning word != 0)"]
